@@ -57,3 +57,14 @@ Example C11_example :
   /\ accumulate Z 0%Z Z.add 3 [Dense Z [1; 1; 1]%Z; Sparse Z [2; 2]%nat [4; 5]%Z; Dense Z [0; 2; 0]%Z]
      = Some ([1; 3; 10]%Z, true).
 Proof. vm_compute. split; reflexivity. Qed.
+
+(* the model of core.add_outgrads IS the decision table the translator reads off /repo's source on this run *)
+From AG Require Import EngineTie.
+From AGGen Require Import GenEngine.
+Theorem C11_add_outgrads_model_follows_source :
+  forall (K : Type) (k0 : K) (kadd : K -> K -> K) n prev c,
+    Index.add_outgrads K k0 kadd n prev c
+    = let '(a, fl) := gen_add_outgrads (has_prev prev) (is_mutable prev) (is_sparse K c) in
+      run_action K k0 kadd a fl n prev c.
+Proof. exact add_outgrads_follows_source. Qed.
+Print Assumptions C11_add_outgrads_model_follows_source.
